@@ -254,7 +254,10 @@ def rule_reserved_parameter_names(ctx: Ctx, out: Collector) -> None:
             out.bad('RD-7', cons, ctx.p.loc(u, c),
                     f'{callee.qualname} has its own keyword parameters {clash} and receives the node\'s arguments by ** : a node (or the '
                     f'caller\'s input_kwargs) with a parameter of that name is never invoked - the call raises TypeError "multiple values", '
-                    f'which is even retried as if the body had failed; nothing rejects such names at build time', props={'C03'})
+                    f'which is even retried as if the body had failed; nothing rejects such names at build time',
+                    # a capture below the mode dispatch of run_node hits some execution modes only: the outcome depends on the mode
+                    props={'C03', 'C17'} if u.fid.endswith('::run_node') or (u.module.name.endswith('node.node') and u.name != 'run_node'
+                                                                            and u.name.startswith('_')) else {'C03'})
 
 
 # ---------------------------------------------------------------------------------------------
@@ -513,6 +516,31 @@ def rule_failure_channel(ctx: Ctx, out: Collector) -> None:
 # EX-6
 # ---------------------------------------------------------------------------------------------
 
+def _converts_stop_iteration(ctx: Ctx, w: FuncUnit) -> bool:
+    """The wrapper, interpreted with a body that raises StopIteration, ends with another exception (and hands on the value of a
+    body that returns)."""
+    from ..absint import AExt, AObj, ARaise, Interp, Oracle, enumerate_outcomes
+    if w.is_async or isinstance(w.node, ast.Lambda):
+        return False
+
+    def run(oracle: Oracle, raising: bool):
+        tok = AObj(('ext', 'Value'), {}, tag='body-value')
+
+        def body(a, k):
+            if raising:
+                raise ARaise('StopIteration')
+            return tok
+        r = Interp(ctx.p, oracle, ext_stubs={'body': body}).call_unit(w, [AExt('body')], {})
+        return r is tok
+    try:
+        bad = enumerate_outcomes(lambda o: run(o, True))
+        good = enumerate_outcomes(lambda o: run(o, False))
+    except AnalysisError:
+        return False
+    return bool(bad) and all(o[0] == 'raise' and 'StopIteration' not in str(o[1]) for o in bad) \
+        and bool(good) and all(o[0] == 'value' and o[1] is True for o in good)
+
+
 def rule_executor_exception_transfer(ctx: Ctx, out: Collector) -> None:
     """EX-6: an exception raised by a body that runs in a pool is handed to the awaiting coroutine through a Future, and
     StopIteration cannot be set on a Future (asyncio logs a TypeError and the future stays pending for ever on the Python
@@ -527,16 +555,17 @@ def rule_executor_exception_transfer(ctx: Ctx, out: Collector) -> None:
             if not (isinstance(c, ast.Call) and isinstance(c.func, ast.Attribute) and c.func.attr == 'run_in_executor' and len(c.args) >= 2):
                 continue
             n += 1
-            fn = c.args[1]
+            pseudo = __import__('sa.cfg', fromlist=['Inst']).Inst(unit, None, None, {})
+            fn, _ = sym.resolve_value(ctx.p, c.args[1], pseudo)          # the callable may be bound to a local first
             cons = f'{unit.module.name}::{unit.qualname}::{text(c)[:60]} [StopIteration cannot cross the executor future]'
             wrapped = False
             target = fn
             if isinstance(fn, ast.Call) and (dotted(fn.func) or '').endswith('partial') and fn.args:
                 target = fn.args[0]
-            for e, i in resolve_all(ctx.p, target, __import__('sa.cfg', fromlist=['Inst']).Inst(unit, None, None, {})):
+            for e, i in resolve_all(ctx.p, target, pseudo):
                 if isinstance(e, (ast.Name, ast.Attribute)):
                     t = FuncEnv.of(ctx.p, unit).type_of(e)
-                    if t[0] == 'func' and 'StopIteration' in unparse(t[1].node):
+                    if t[0] == 'func' and _converts_stop_iteration(ctx, t[1]):
                         wrapped = True
             if wrapped:
                 out.ok('EX-6', cons, ctx.p.loc(unit, c), 'the body is wrapped by a function that converts StopIteration')
